@@ -21,10 +21,13 @@ ACTIONS = ["GetCall", "GetLock", "GetPop", "GetCreateBegin", "GetCreateEnd", "Ge
 # (cfg, workers); every cfg is a complete (exhaustive) exploration of its instance
 MC = {
     "quick": [("MC_Pool.cfg", 4), ("MC_Pool_reset.cfg", 2), ("MC_Pool_outside.cfg", 2), ("MC_Pool_forget.cfg", 1)],
-    "thorough": [("MC_Pool_thorough4.cfg", 8), ("MC_Pool_thorough.cfg", 6), ("MC_Pool_reset_thorough.cfg", 3),
-                 ("MC_Pool_outside_thorough.cfg", 3), ("MC_Pool_forget_thorough.cfg", 3), ("MC_Pool_forget_thorough3.cfg", 3),
-                 ("MC_Pool.cfg", 2), ("MC_Pool_reset.cfg", 2), ("MC_Pool_outside.cfg", 2), ("MC_Pool_forget.cfg", 2)],
+    "thorough": [("MC_Pool_thorough.cfg", 6), ("MC_Pool_thorough4.cfg", 3), ("MC_Pool_reset_thorough.cfg", 3),
+                 ("MC_Pool_outside_thorough.cfg", 3), ("MC_Pool_forget_thorough.cfg", 3), ("MC_Pool_forget_thorough3.cfg", 2),
+                 ("MC_Pool.cfg", 2), ("MC_Pool_reset.cfg", 1), ("MC_Pool_outside.cfg", 1), ("MC_Pool_forget.cfg", 1)],
 }
+# TLC's coverage statistics cost a factor of several on big models: they are collected on the quick configurations only
+# (which the thorough tier runs as well and which together take every action)
+COVERAGE_CFGS = {"MC_Pool.cfg", "MC_Pool_reset.cfg", "MC_Pool_outside.cfg", "MC_Pool_forget.cfg"}
 # schedule emission: (spec, threads, rounds, poolops, mayfail, mayforget, simulate-num or None)
 EMIT = {
     "quick": [("PSpec", "{1, 2}", 2, 0, "TRUE", "FALSE", None), ("PSpec", "{1, 2, 3}", 1, 0, "TRUE", "TRUE", None),
@@ -63,8 +66,8 @@ _COV = re.compile(r"^<(\w+) line \d+, col \d+ to line \d+, col \d+ of module Poo
 
 def _mc_one(args):
     cfg, workers, thorough = args
-    r = tlc("MC_Pool", cfg, workers=workers, timeout=2700 if thorough else 900, coverage=True,
-            xmx="12g" if thorough else "6g")
+    r = tlc("MC_Pool", cfg, workers=workers, timeout=2700 if thorough else 900, coverage=cfg in COVERAGE_CFGS,
+            xmx="10g" if thorough else "6g")
     cov = {}
     for m in _COV.finditer(r.out):
         d, t = cov.get(m.group(1), (0, 0))
